@@ -1,4 +1,6 @@
 import Driver.Common
+import LalModel.Model.GopRing
+import LalModel.Proof.GopRing
 import LalModel.Model.Group
 import LalModel.Spec.ChunkSpec
 import LalModel.Spec.FlvSpec
@@ -237,6 +239,40 @@ def handleC01 : Handler := fun comp a impl =>
     let c := parseCfg cfg
     let s := run c es
     some { model := showRun s es, verdict := oracle c es impl }
+  | "gopts.run", [gopNum, cap, evs] =>
+    let n := nat! gopNum; let c := nat! cap
+    let es := (splitOnChar evs ',').map (splitOnChar · ':')
+    -- the model: remux.GopCacheMpegts as modelled for C05 (ring with first / last indices, Go index expressions)
+    let r0 : GopRing.Ring Bytes := GopRing.Ring.new n c
+    let rM := es.foldl (fun (acc : Except Fault (GopRing.Ring Bytes)) e =>
+      match acc with
+      | .error f => .error f
+      | .ok r =>
+        match e with
+        | ["b", h] => r.feedMpegts (hex! h) true
+        | ["n", h] => r.feedMpegts (hex! h) false
+        | ["c"] => .ok { r with first := 0, last := 0 }
+        | _ => .ok r) (.ok r0)
+    let showG (G : List (List Bytes)) : String :=
+      if G.isEmpty then "-" else String.intercalate "/" (G.map fun gop => String.intercalate "." (gop.map Hex.ofBytes))
+    let model := match rM with
+      | .error _ => "panic"
+      | .ok r =>
+        match r.count with
+        | .error _ => "panic"
+        | .ok k =>
+          match (List.range k).mapM (fun i => r.dataAt i) with
+          | .ok G => showG G
+          | .error _ => "panic"
+    -- the property: the cache IS a queue of at most gopNum GOPs, a GOP = the frames since its boundary (at most cap,
+    -- 0 = unbounded), empty after Clear(): nothing of an earlier input, nothing out of order
+    let spec := es.foldl (fun (G : List (List Bytes)) e =>
+      match e with
+      | ["b", h] => GopCache.specFeed n c G false false true (hex! h)
+      | ["n", h] => GopCache.specFeed n c G false false false (hex! h)
+      | ["c"] => []
+      | _ => G) []
+    some { model := model, verdict := if impl == showG spec then "ok" else "bad:ts-gop-cache-is-not-the-queue-of-the-last-gops" }
   | "lazy.msg", [typ, ts, payload] =>
     let m : InMsg := { typ := nat! typ, ts := nat! ts, payload := hex! payload }
     let model := s!"{Hex.ofBytes (chunksWithSdf m)} {Hex.ofBytes (chunksWithoutSdf m)} {Hex.ofBytes (tagWithoutSdf m)}"
